@@ -312,8 +312,8 @@ func (node *Node) clone(tree *MutableTree) (*Node, error) {
 		if err != nil {
 			return nil, err
 		}
-		node.leftNode = nil
-		node.rightNode = nil
+		// The persisted node itself is left untouched: it is shared, through the
+		// node cache, with the immutable trees other goroutines are reading.
 	}
 
 	return &Node{
